@@ -44,9 +44,11 @@ def tasks_for(units, tier):
     for ui, u in enumerate(units):
         if u['tier'] == 'thorough' and tier != 'thorough':
             continue
+        variants = [False] + ([True] if (u.get('opts') or {}).get('int_variant') else [])
         for ci, case in enumerate(u['cases']):
+          for intv in variants:
             if 'unbounded' in u['modes']:
-                out.append((ui, ci, 'unbounded', {}))
+                out.append((ui, ci, 'unbounded', {'__int__': 1} if intv else {}))
             if 'bounded' in u['modes']:
                 sizes = u['sizes']
                 if tier == 'thorough' and u.get('thorough_sizes'):
@@ -54,9 +56,9 @@ def tasks_for(units, tier):
                 if sizes:
                     keys = sorted(sizes)
                     for combo in itertools.product(*[list(sizes[k]) for k in keys]):
-                        out.append((ui, ci, 'bounded', dict(zip(keys, combo))))
+                        out.append((ui, ci, 'bounded', dict(zip(keys, combo), **({'__int__': 1} if intv else {}))))
                 elif 'unbounded' not in u['modes']:
-                    out.append((ui, ci, 'bounded', {}))
+                    out.append((ui, ci, 'bounded', {'__int__': 1} if intv else {}))
     return out
 
 
@@ -65,6 +67,8 @@ _G = {}
 
 def _run_task(task):
     ui, ci, mode, sizes = task
+    sizes = dict(sizes)
+    intv = bool(sizes.pop('__int__', 0))
     from . import api
     from .terms import EngineError
     from .interp import Infeasible
@@ -73,6 +77,11 @@ def _run_task(task):
     t0 = time.time()
     V = api.Verifier(u, case, mode, sizes, u['budget_ms'] * (3 if _G['tier'] == 'thorough' else 1), seed=_G['seed'],
                      use_cvc5=_G['tier'] == 'thorough')
+    if intv:
+        # the same unit with the named record arrays declared as INTEGER-dtype arrays (raw counts): buffers derived from the record with
+        # zeros_like / empty_like / astype take its dtype, and stores into them truncate
+        V.int_names = set(u['opts']['int_variant'])
+        V.case_tag = (V.case_tag.split('|')[0] + (',' if V.case_tag.split('|')[0] else '') + 'record=int') + ('|' + V.case_tag.split('|', 1)[1] if '|' in V.case_tag else '')
     V.baseline_vcs = _G.get('baseline_vcs', set())
     V.hash_all = _G.get('hash_all', False)
     err = None
@@ -108,6 +117,7 @@ def run_property(prop, tier, seed, jobs=None, only=None, hash_all=False):
         units = [u for u in units if only in u['name']]
     _G['units'], _G['tier'], _G['seed'] = units, tier, seed
     from . import report as _rp
+    _rp._TIER[0] = tier
     _G['baseline_vcs'] = _rp.load_baseline_vcs(prop)
     _G['hash_all'] = hash_all
     tasks = tasks_for(units, tier)
@@ -140,6 +150,19 @@ def main(argv=None):
         return replay.main_replay(args.prop, args.replay)
     t0 = time.time()
     from . import report
+    # the assumed library contracts are cross-checked against the installed NumPy/SciPy on every run (pyvc/conformance.py)
+    import subprocess
+    try:
+        cp = subprocess.run([sys.executable, '-m', 'pyvc.conformance'], cwd=HERE, capture_output=True, text=True, timeout=300)
+        last = ' | '.join((cp.stdout.strip().splitlines() or ['no output'])[-2:])
+        if cp.returncode != 0:
+            print(cp.stdout[-3000:])
+            print('CHECKER-ERROR property=%s an assumed library contract disagrees with the installed library: %s' % (args.prop, last))
+            return 3
+        os.environ['PYVC_CONFORMANCE'] = last
+    except Exception as e:
+        print('CHECKER-ERROR property=%s library-contract conformance run failed: %s: %s' % (args.prop, type(e).__name__, e))
+        return 3
     try:
         units, results = run_property(args.prop, args.tier, seed, args.jobs, args.only, hash_all=args.write_baseline)
     except Exception as e:
